@@ -1,5 +1,7 @@
 package ecs
 
+import "math/bits"
+
 // One-step lemmas over the small containers the world is built from, each from an
 // arbitrary (symbolic) state of the container: decided by the solver for every
 // key / index / content, not by enumeration.
@@ -76,5 +78,57 @@ func HC01_IDMap() {
 	m.Remove(k1)
 	_, ok3 = m.Get(k3)
 	vAssert(!ok3, "idMap is empty after removing every key")
+	vReach("end")
+}
+
+func init() { vRegister("HConf_Bits", HConf_Bits) }
+
+// HConf_Bits validates the engine's math/bits intrinsics against loop definitions
+// (solver: intrinsic == definition for every input; native self-check: the real
+// functions == the same definitions on random inputs).
+func HConf_Bits() {
+	x := vU64("x")
+	n, lz, tz, pc := 0, 64, 64, 0
+	for i := 0; i < 64; i++ {
+		if x&(1<<uint(i)) != 0 {
+			n = i + 1
+		}
+	}
+	for i := 0; i < 8; i++ {
+		if x&(1<<uint(i)) != 0 {
+			pc++
+		}
+	}
+	for i := 63; i >= 0; i-- {
+		if x&(1<<uint(i)) != 0 {
+			tz = i
+		}
+	}
+	lz = 64 - n
+	vAssert(bits.Len64(x) == n && bits.Len(uint(x)) == n, "bits.Len64")
+	vAssert(bits.LeadingZeros64(x) == lz, "bits.LeadingZeros64")
+	vAssert(bits.TrailingZeros64(x) == tz && bits.TrailingZeros(uint(x)) == tz, "bits.TrailingZeros64")
+	vAssert(bits.OnesCount8(uint8(x)) == pc, "bits.OnesCount8 (OnesCount64 is cross-checked with the library's SWAR formula by the engine self-test)")
+	y := uint32(x)
+	n32, tz32 := 0, 32
+	for i := 0; i < 32; i++ {
+		if y&(1<<uint(i)) != 0 {
+			n32 = i + 1
+		}
+	}
+	for i := 31; i >= 0; i-- {
+		if y&(1<<uint(i)) != 0 {
+			tz32 = i
+		}
+	}
+	vAssert(bits.Len32(y) == n32 && bits.LeadingZeros32(y) == 32-n32 && bits.TrailingZeros32(y) == tz32, "bits.*32")
+	z := uint8(x)
+	n8 := 0
+	for i := 0; i < 8; i++ {
+		if z&(1<<uint(i)) != 0 {
+			n8 = i + 1
+		}
+	}
+	vAssert(bits.Len8(z) == n8 && bits.LeadingZeros8(z) == 8-n8, "bits.*8")
 	vReach("end")
 }
